@@ -23,6 +23,7 @@ pub mod c07;
 pub mod c13;
 pub mod c15;
 pub mod c40;
+pub mod keychecks;
 pub mod refchecks;
 pub mod c41;
 pub mod c42;
@@ -50,6 +51,7 @@ pub fn dispatch(id: &str, args: &[String]) -> ! {
         "C13" => c13::run(args),
         "C15" => c15::run(args),
         "C40" => c40::run(args),
+        "C34" => keychecks::run(args),
         "C16" => refchecks::run("C16", args),
         "C18" => refchecks::run("C18", args),
         "C41" => c41::run(args),
